@@ -58,6 +58,32 @@ func init() {
 		"(*sync.RWMutex).RUnlock": extNop,
 		"(*sync.Pool).Put":        extPoolPut,
 		"(*sync.Pool).Get":        extPoolGet,
+		"sync/atomic.LoadInt32":   extAtomicLoad,
+		"sync/atomic.LoadInt64":   extAtomicLoad,
+		"sync/atomic.LoadUint32":  extAtomicLoad,
+		"sync/atomic.LoadUint64":  extAtomicLoad,
+		"sync/atomic.LoadUintptr": extAtomicLoad,
+		"sync/atomic.LoadPointer": extAtomicLoad,
+		"sync/atomic.StoreInt32":   extAtomicStore,
+		"sync/atomic.StoreInt64":   extAtomicStore,
+		"sync/atomic.StoreUint32":  extAtomicStore,
+		"sync/atomic.StoreUint64":  extAtomicStore,
+		"sync/atomic.StoreUintptr": extAtomicStore,
+		"sync/atomic.StorePointer": extAtomicStore,
+		"sync/atomic.SwapInt32":   extAtomicSwap,
+		"sync/atomic.SwapInt64":   extAtomicSwap,
+		"sync/atomic.SwapUint32":  extAtomicSwap,
+		"sync/atomic.SwapUint64":  extAtomicSwap,
+		"sync/atomic.SwapPointer": extAtomicSwap,
+		"sync/atomic.AddInt32":    extAtomicAdd,
+		"sync/atomic.AddInt64":    extAtomicAdd,
+		"sync/atomic.AddUint32":   extAtomicAdd,
+		"sync/atomic.AddUint64":   extAtomicAdd,
+		"sync/atomic.CompareAndSwapInt32":   extAtomicCAS,
+		"sync/atomic.CompareAndSwapInt64":   extAtomicCAS,
+		"sync/atomic.CompareAndSwapUint32":  extAtomicCAS,
+		"sync/atomic.CompareAndSwapUint64":  extAtomicCAS,
+		"sync/atomic.CompareAndSwapPointer": extAtomicCAS,
 		"(*sync.Map).Load":          extSyncMapLoad,
 		"(*sync.Map).Store":         extSyncMapStore,
 		"(*sync.Map).LoadOrStore":   extSyncMapLoadOrStore,
@@ -195,6 +221,41 @@ func extPoolGet(fr *frame, args []value) value {
 		}
 	}
 	return iface{}
+}
+
+// sync/atomic on the interpreter's cells (atomic operations are
+// synchronisation: they are not logged as plain accesses for the race query).
+func extAtomicLoad(fr *frame, args []value) value { return *args[0].(*value) }
+
+func extAtomicStore(fr *frame, args []value) value {
+	*args[0].(*value) = args[1]
+	return nil
+}
+
+func extAtomicSwap(fr *frame, args []value) value {
+	c := args[0].(*value)
+	old := *c
+	*c = args[1]
+	return old
+}
+
+func extAtomicAdd(fr *frame, args []value) value {
+	c := args[0].(*value)
+	sig := fr.fn.Signature
+	t := sig.Results().At(0).Type()
+	*c = binop(fr.i.path, token.ADD, t, *c, args[1])
+	return *c
+}
+
+func extAtomicCAS(fr *frame, args []value) value {
+	c := args[0].(*value)
+	sig := fr.fn.Signature
+	t := sig.Params().At(1).Type()
+	if fr.i.path.equalsFork(t, *c, args[1]) {
+		*c = args[2]
+		return true
+	}
+	return false
 }
 
 // sync.Map: an insertion-ordered map from interface keys to interface values
